@@ -114,7 +114,7 @@ PROPS = {
         'assumptions': ['every reading of the monotonic clock is strictly later than the previous one (the code uses the reading as a generation stamp; observation O4)',
                         'setfile change detection = (inode, mtime in seconds): each rewrite gets a later mtime; setfile lines are distinct',
                         '"more than the interval has elapsed" is evaluated on whole seconds, as the code and the man page do (observation O5)',
-                        'T07a (no use of unloaded readers, every history) and T07c are proved on the model; the view clause is validated by engine fs'],
+                        'all clauses (T07a safety, T07b view, T07d/e pinning and deferred reload, T07c timing) are proved on the model for every history; engine fs ties the model to the C code'],
         'explanation': 'State-machine model of fileset.c + my_fileset.c over an abstract world (setfile, files, clock). Engine fs runs random and directed histories (setfile rewrites with relative/absolute/missing/not-a-table lines, file creation/deletion, clock advances around the interval, reload, reload_now, iterators opened early and drained late, dups with filters and intervals 0/n/NEVER, destruction in any order) on the real code and the model and compares the set of tables every iterator sees.',
     },
     'C12': {
